@@ -15,6 +15,7 @@ CONSTANTS Bind, Debug
 Trace == ndJsonDeserialize("trace.ndjson")
 
 VARIABLES
+  saved,  \* the state at the beginning of a multi-message transaction (restored if the transaction fails)
   l, br,
   hist   \* [credited: Seq of receipts ever queued, notified: Seq [id, kind], edges ok flag, paidProof: ...]
 
@@ -53,6 +54,7 @@ TInit ==
            proc |-> [i \in {} |-> 0], nextPid |-> 0, q |-> [cursor |-> 0, deposits |-> << >>, paid |-> << >>, rejected |-> << >>],
            nonce |-> 0, params |-> [minDeposit |-> Dust, taxRate |-> 0, maxTax |-> 0, conf |-> 1], err |-> FALSE]
   /\ hist = [credited |-> << >>, notified |-> << >>]
+  /\ saved = << >>
 
 TraceInitEv ==
   /\ IsEvent("init")
@@ -183,8 +185,18 @@ TraceReimport ==
      /\ br' = C
   /\ UNCHANGED hist
 
-TNext == TraceReimport \/ TraceInitEv \/ TraceBlockMsg \/ TraceHashes \/ TracePubkey \/ TraceDeposits \/ TraceProcess \/ TraceReplace
-         \/ TraceFinalize \/ TraceApprove \/ TraceConsolidation \/ TraceOther \/ TraceEnd
+TNext0 == TraceReimport \/ TraceInitEv \/ TraceBlockMsg \/ TraceHashes \/ TracePubkey \/ TraceDeposits \/ TraceProcess \/ TraceReplace
+          \/ TraceFinalize \/ TraceApprove \/ TraceConsolidation \/ TraceOther \/ TraceEnd
+
+(* A transaction with several messages is all-or-nothing: `txbegin`, one event per executed message (each explained by the    *)
+(* actions above, on the state the previous messages left), `txend`: if the transaction failed, everything is undone.          *)
+TraceTxBegin == IsEvent("txbegin") /\ saved' = << br, hist >> /\ UNCHANGED << br, hist >>
+TraceTxEnd ==
+  /\ IsEvent("txend")
+  /\ saved # << >>
+  /\ IF Ev.ok THEN UNCHANGED << br, hist >> ELSE br' = saved[1] /\ hist' = saved[2]
+  /\ saved' = << >>
+TNext == (TNext0 /\ UNCHANGED saved) \/ TraceTxBegin \/ TraceTxEnd
 
 Reached == PrintT(<<"TRACE_REACHED", TLCGet("stats").diameter - 1, Len(Trace)>>)
 
@@ -201,7 +213,8 @@ NotifiedOnce == \A i, j \in DOMAIN hist.notified : i # j => hist.notified[i].id 
 ParamsSafeInv == ParamsSafe(br.params)
 QueueOk == QueueSane(br)
 \* C05 status edges (action property over the observed withdrawal table)
-EdgesOk == [][\A id \in DOMAIN br'.wd : Edge(WdOf(br, id).status, br'.wd[id].status) \/ Trace[l].ev = "init"]_vars
-TerminalAbsorbing == [][\A id \in DOMAIN br.wd : (br.wd[id].status \in Terminal /\ Trace[l].ev \notin {"init", "reimport"}) => WdOf(br', id).status = br.wd[id].status]_vars
-HashesAppendOnly == [][Trace[l].ev \notin {"init", "reimport"} => \A h \in DOMAIN br.hashes : h \in DOMAIN br'.hashes /\ br'.hashes[h] = br.hashes[h]]_vars
+\* (the `txend` of a failed multi-message transaction undoes speculative steps: it is a rollback, not a transition)
+EdgesOk == [][\A id \in DOMAIN br'.wd : Edge(WdOf(br, id).status, br'.wd[id].status) \/ Trace[l].ev \in {"init", "txend"}]_vars
+TerminalAbsorbing == [][\A id \in DOMAIN br.wd : (br.wd[id].status \in Terminal /\ Trace[l].ev \notin {"init", "reimport", "txend"}) => WdOf(br', id).status = br.wd[id].status]_vars
+HashesAppendOnly == [][Trace[l].ev \notin {"init", "reimport", "txend"} => \A h \in DOMAIN br.hashes : h \in DOMAIN br'.hashes /\ br'.hashes[h] = br.hashes[h]]_vars
 =============================================================================
